@@ -19,6 +19,13 @@ def decIdxNetRule (w : W) : Option (NetRule × Idx) :=
 def retrieveFrom {α} (tbl : List (α × Idx)) (idx : Idx) : Option α :=
   (tbl.find? (·.2 == idx)).map (·.1)
 
+/-- Executable form of the theorems' hypotheses on the rule list (`DomainsWF`, `TextDeterminesRule`,
+    unique storage indexes = `RetrievalOK` for `retrieveFrom`); a line violating them is `ood`. -/
+def netHypsOK (L : List (NetRule × Idx)) : Bool :=
+  L.all (fun p => p.1.permDomains.all fun d => !d.isEmpty && d.getLast? != some (ch '.')) &&
+  L.all (fun p => L.all fun p' => p.1.text != p'.1.text || p'.1 == { p.1 with listID := p'.1.listID }) &&
+  (L.map (·.2)).eraseDups.length == L.length
+
 /-- `c01.matchall ((idx R)…) Q psl addrs (pat…)`: model = the three-table engine built by folding
     `addRule` over the rules in storage order; spec = linear scan. Answers: sorted text sets. -/
 def opC01 (args : List W) : String :=
@@ -26,6 +33,7 @@ def opC01 (args : List W) : String :=
   | [.l rs, q, psl, addrs, pats] =>
     match rs.mapM decIdxNetRule, decRequest q, decPslTable psl, decAddrTable addrs, decPatTable pats with
     | some L, some q, some psl, some addrs, some pats =>
+      if !netHypsOK L then "ood -" else
       let ext := mkExt psl addrs pats
       let e := Engine.build djb2 Facts.shortcutLength L
       let model := e.matchAll djb2 Facts.shortcutLength (retrieveFrom L) ext q
@@ -58,6 +66,7 @@ def opC02 (args : List W) : String :=
         match goBasic with
         | none => none
         | some t => nrs.find? (·.text == t)
+      if !(netHypsOK (hostLevelNet L) && (L.map (·.2)).eraseDups.length == L.length) then "ood -" else
       let ext := mkExt psl addrs pats
       let d := DnsEngine.build djb2 Facts.shortcutLength L
       let model := d.matchRequest djb2 Facts.shortcutLength (retrieveFrom L) ext basic q
@@ -76,6 +85,7 @@ def opC15 (args : List W) : String :=
   | [.l rs, host, css, js, gen, psl] =>
     match rs.mapM decCosRule, host.bytes?, css.bool?, js.bool?, gen.bool?, decPslTable psl with
     | some L, some host, some css, some js, some gen, some psl =>
+      if !(L.all fun r => r.permDomains.all fun d => !d.isEmpty) then "ood -" else
       let ext := mkExt psl [] []
       let t := CosTable.build L
       outSel (t.matchHost ext host css js gen) ++ " " ++ outSel (specCosmetic ext L host css js gen)
